@@ -4,7 +4,7 @@
 From Coq Require Import NArith List Bool.
 Import ListNotations.
 From CXV Require Import Gen.TokTy Parse.Balanced Parse.BalancedThms Parse.Declarator Parse.DeclSpec Parse.DeclThms Parse.DeclPins.
-From CXV Require Import Parse.EnumList Parse.Specs Parse.VarStmt Parse.FnTail Parse.Init.
+From CXV Require Import Parse.EnumList Parse.Specs Parse.VarStmt Parse.FnTail Parse.Init Parse.Members.
 From CXV Require Import Parse.Fold Parse.FoldThms Parse.FoldPlace.
 Open Scope N_scope.
 
@@ -75,6 +75,17 @@ Theorem variable_statement_with_initialisers_decodes_partial : forall pre post b
            rest)).
 Proof. exact var_stmt_i_roundtrip. Qed.
 
+(* typedef statements: one entry per declarator on the shared base type; only
+   const / volatile may accompany the type, no bit-field, no initialiser *)
+Theorem typedef_statement_decodes_partial : forall pre post b items rest,
+  forallb (fun k => (k =? T_const) || (k =? T_volatile)) (pre ++ post) = true ->
+  items <> [] -> Forall (mitem_ok false true) items ->
+  let m := apply_kws (pre ++ post) mods0 in
+  ev (fun f => typedef_stmt (length items) f
+                 (kw_toks pre ++ nm_tok b :: kw_toks post ++ join_comma (map mitem_toks items) ++ ktok SEMI :: rest))
+     (DOk (map (mitem_out (TBase b (m_const m) (m_volatile m))) items, rest)).
+Proof. exact typedef_stmt_roundtrip. Qed.
+
 (* A function declaration `R-declarator( name ( parameters ) )`: the reported
    return type, name, parameter list (types and names in order) and vararg
    flag are those written, for every legal function type (any nesting of the
@@ -123,6 +134,7 @@ Print Assumptions specifier_order_irrelevant.
 Print Assumptions specifier_flags_are_memberships.
 Print Assumptions variable_statement_decodes_partial.
 Print Assumptions variable_statement_with_initialisers_decodes_partial.
+Print Assumptions typedef_statement_decodes_partial.
 Print Assumptions function_declaration_decodes_partial.
 Print Assumptions function_statement_decodes_partial.
 Print Assumptions enumerators_reported_exactly_partial.
